@@ -232,7 +232,9 @@ pub fn text_of_abs(v: &Value) -> String {
                 t.push(' ');
                 t.push_str(&names.join(" "));
             }
-            format!("{} {}", t, text_expr(&v["duration"]))
+            // the duration is parenthesised: `DELAY 0 cos(a[0])` would otherwise be read as a delay on the qubits
+            // `0` and `cos` (the parser takes identifiers after DELAY as qubit variables)
+            format!("{} ({})", t, text_expr(&v["duration"]))
         }
         "Reset" => match v["qubit"].get("some") {
             Some(q) => format!("RESET {q}"),
